@@ -41,22 +41,46 @@ def decode(data: bytes) -> dict:
     d = D(data)
     case: Dict[str, Any] = {"transport": d.pick(["tcp", "unix"]), "n": d.pick([0, 1, 1, 2, 2, 3]), "events": []}
     n = case["n"]
-    for _ in range(d.i(0, 10) if n else 0):
+    # events follow the clients' states, so that most of them mean something: 0 not connected, 1 connected without handshake,
+    # 2 handshake done, 3 waiting in a blocking command
+    st_ = [0] * n
+    for _ in range(d.i(0, 14) if n else 0):
         c = d.i(0, n - 1)
-        r = d.i(0, 9)
-        if r < 3:
-            case["events"].append({"e": "connect", "c": c, "handshake": not d.p(0.25), "split": d.p(0.3)})
-        elif r < 6:
-            case["events"].append({"e": "cmd", "c": c, "k": d.i(0, len(CMDS) - 1)})
-        elif r < 7 and d.p(0.3):
-            case["events"].append({"e": "handshake", "c": c})       # the handshake of a client that connected earlier without one
-        elif r < 7:
-            if d.p(0.5):
-                case["events"].append({"e": "pipeline", "c": c, "k": d.i(0, len(CMDS) - 1), "k2": d.i(0, len(CMDS) - 1)})
+        r = d.i(0, 99)
+        if st_[c] == 0 or r >= 96:
+            hs = not d.p(0.25)
+            case["events"].append({"e": "connect", "c": c, "handshake": hs, "split": d.p(0.3)})
+            if st_[c] == 0:
+                st_[c] = 2 if hs else 1
+        elif st_[c] == 1:
+            if r < 60:
+                case["events"].append({"e": "handshake", "c": c})
+                st_[c] = 2
+            elif r < 80:
+                case["events"].append({"e": "cmd", "c": c, "k": d.i(0, len(CMDS) - 1)})      # sends the handshake now
+                st_[c] = 2
             else:
+                case["events"].append({"e": "disc", "c": c, "how": d.pick(["close", "eof", "abort", "reset"])})
+                st_[c] = 0
+        elif st_[c] == 2:
+            if r < 45:
+                case["events"].append({"e": "cmd", "c": c, "k": d.i(0, len(CMDS) - 1)})
+            elif r < 55:
+                case["events"].append({"e": "pipeline", "c": c, "k": d.i(0, len(CMDS) - 1), "k2": d.i(0, len(CMDS) - 1)})
+            elif r < 68:
                 case["events"].append({"e": "block", "c": c})
+                st_[c] = 3
+            else:
+                case["events"].append({"e": "disc", "c": c, "how": d.pick(["close", "eof", "abort", "reset"])})
+                st_[c] = 0
         else:
-            case["events"].append({"e": "disc", "c": c, "how": d.pick(["close", "eof", "abort", "reset"])})
+            if r < 50:
+                case["events"].append({"e": "disc", "c": c, "how": d.pick(["close", "eof", "abort", "reset"])})
+                st_[c] = 0
+            else:
+                others = [o for o in range(n) if st_[o] == 2]
+                if others:
+                    case["events"].append({"e": "cmd", "c": others[d.i(0, len(others) - 1)], "k": d.i(0, len(CMDS) - 1)})
     case["stop_at"] = d.i(0, len(case["events"]))
     case["cli"] = d.p(0.04)
     case["restart"] = d.p(0.3)
@@ -92,7 +116,7 @@ class C19Engine(Engine):
             "client transports closed, serving task not done, loop idle on consecutive polls), otherwise inconclusive. Non-trivial: >= 2 "
             "clients and the stop issued while >= 1 is connected. Distinct = case hash.")
     assumptions = ["loopback TCP and Unix sockets are available in the sandbox", "kernel timing is not owned: bounded waits, inconclusive rather than alarm"]
-    bounds = {"clients": "0..3", "events": "<=10", "bound_s": BOUND}
+    bounds = {"clients": "0..3", "events": "<=14", "bound_s": BOUND}
 
     def strategies(self, tier: str):
         def with_cli(b: bytes) -> dict:
